@@ -376,6 +376,27 @@ func CheckC15(run *ev.Run) {
 		// (e) ignore everything, verbatim
 		all := j0.Out
 		ta := lab.runCmd(ja, jb, "txt", false, &all)
+		// a line of a later run that the first report (rendered by the model) does not contain is direct evidence of the
+		// order-dependent visit: the analysis itself, not the filtering, differed between the two runs
+		foreign := func(out string) bool {
+			have := map[string]bool{}
+			for _, ln := range m0.Lines {
+				have[ln] = true
+			}
+			for _, ln := range textLines(out) {
+				if !frame[ln] && !strings.HasPrefix(ln, "compatibility test") && strings.TrimSpace(ln) != "No changes identified" && !have[ln] {
+					st["unstable-report(foreign-line)"]++
+					run.Deviation("unstable-report:order-dependent-schema-visit",
+						"a later run of `swagger diff` on the same pair prints a difference the first report does not contain (order-dependent $ref visit): "+ln,
+						s.Replay(map[string]interface{}{"first": j0.Out, "later_text": out}))
+					return true
+				}
+			}
+			return false
+		}
+		if (ta.R != "ok" || ta.Failed || strings.TrimSpace(ta.Out) != "No changes identified") && m0.R == "ok" && foreign(ta.Out) {
+			continue
+		}
 		if ta.R != "ok" || ta.Failed || strings.TrimSpace(ta.Out) != "No changes identified" {
 			fail("ignore-all", "feeding the JSON report back as ignore file does not yield an empty report with exit 0", map[string]interface{}{"text": ta.Out, "failed": ta.Failed, "err": ta.Err})
 		}
